@@ -83,6 +83,13 @@ impl Filter {
         limit: Option<u32>,
         output: &'a mut [u8],
     ) -> Result<&'a Filter, Error> {
+        // The counts are stored in 16 bits
+        for count in [ids.len(), authors.len(), kinds.len()] {
+            if count > u16::MAX as usize {
+                return Err(InnerError::OutOfRange(count).into());
+            }
+        }
+
         let length = Self::output_size_needed(ids, authors, kinds, tags);
         if output.len() < length {
             return Err(InnerError::BufferTooSmall(length).into());
@@ -871,7 +878,9 @@ fn parse_json_filter(input: &[u8], output: &mut [u8]) -> Result<(usize, usize), 
                 .get_mut(end..)
                 .ok_or_else(|| -> Error { InnerError::BufferTooSmall(end + ID_SIZE).into() })?;
             read_id(input, &mut inpos, outbuf)?;
-            num_ids += 1;
+            num_ids = num_ids.checked_add(1).ok_or_else(|| -> Error {
+                InnerError::JsonBadFilter("Too many ids", inpos).into()
+            })?;
             end += ID_SIZE;
         }
 
@@ -892,7 +901,9 @@ fn parse_json_filter(input: &[u8], output: &mut [u8]) -> Result<(usize, usize), 
                 .get_mut(end..)
                 .ok_or_else(|| -> Error { InnerError::BufferTooSmall(end + PUBKEY_SIZE).into() })?;
             read_pubkey(input, &mut inpos, outbuf)?;
-            num_authors += 1;
+            num_authors = num_authors.checked_add(1).ok_or_else(|| -> Error {
+                InnerError::JsonBadFilter("Too many authors", inpos).into()
+            })?;
             end += PUBKEY_SIZE;
         }
 
@@ -920,7 +931,9 @@ fn parse_json_filter(input: &[u8], output: &mut [u8]) -> Result<(usize, usize), 
                 );
             }
             put(output, end, (u as u16).to_ne_bytes().as_slice())?;
-            num_kinds += 1;
+            num_kinds = num_kinds.checked_add(1).ok_or_else(|| -> Error {
+                InnerError::JsonBadFilter("Too many kinds", inpos).into()
+            })?;
             end += KIND_SIZE;
         }
 
@@ -987,13 +1000,19 @@ fn parse_json_filter(input: &[u8], output: &mut [u8]) -> Result<(usize, usize), 
                 end += 2 + outlen;
                 inpos += inlen;
                 verify_char(input, b'"', &mut inpos)?;
-                count += 1;
+                count = count.checked_add(1).ok_or_else(|| -> Error {
+                    InnerError::JsonBadFilter("Too many values", inpos).into()
+                })?;
             }
 
             // write count
             put(output, countindex, count.to_ne_bytes().as_slice())?;
         }
-        // write length of tags section
+        // write length of tags section (which, like every offset and string length
+        // within it, is stored in 16 bits)
+        if end - write_tags_start > u16::MAX as usize {
+            return Err(InnerError::OutOfRange(end - write_tags_start).into());
+        }
         put(
             output,
             write_tags_start,
